@@ -21,9 +21,15 @@ type abandon struct {
 	mode string // "handler-returns" | "caller-cancels" | "caller-stops"
 	n, k int    // handler-returns: caller sends n, handler reads k<n then returns; caller-*: handler sends n, caller reads k<=n then cancels/stops
 	herr bool   // handler returns an error instead of nil
+	rstFails bool // caller-cancels: the transport write that follows the cancellation (the reset) fails
 }
 
-func (a abandon) name() string { return fmt.Sprintf("%s/n=%d/k=%d/herr=%v", a.mode, a.n, a.k, a.herr) }
+func (a abandon) name() string {
+	if a.rstFails {
+		return fmt.Sprintf("%s/n=%d/k=%d/reset-write-fails", a.mode, a.n, a.k)
+	}
+	return fmt.Sprintf("%s/n=%d/k=%d/herr=%v", a.mode, a.n, a.k, a.herr)
+}
 
 func c11(tier string) []*explore.Scenario {
 	var out []*explore.Scenario
@@ -39,9 +45,9 @@ func c11(tier string) []*explore.Scenario {
 					if others > 0 || n > 2 {
 						b = bound - 1
 					}
-					out = append(out, c11One(abandon{"handler-returns", n, k, false}, cp, others, b))
+					out = append(out, c11One(abandon{"handler-returns", n, k, false, false}, cp, others, b))
 					if k == 0 {
-						out = append(out, c11One(abandon{"handler-returns", n, k, true}, cp, others, b))
+						out = append(out, c11One(abandon{"handler-returns", n, k, true, false}, cp, others, b))
 					}
 				}
 			}
@@ -57,21 +63,24 @@ func c11(tier string) []*explore.Scenario {
 				if n > 2 {
 					b = bound - 1
 				}
-				out = append(out, c11One(abandon{"caller-cancels", n, k, false}, cp, 0, b))
+				out = append(out, c11One(abandon{"caller-cancels", n, k, false, false}, cp, 0, b))
+				if k == 0 || k == n {
+					out = append(out, c11One(abandon{"caller-cancels", n, k, false, true}, cp, 0, b))
+				}
 				if n == 2 {
-					out = append(out, c11One(abandon{"caller-cancels", n, k, false}, cp, 1, b-1))
+					out = append(out, c11One(abandon{"caller-cancels", n, k, false, false}, cp, 1, b-1))
 				}
 			}
 		}
 	}
 	// a caller that simply stops reading (no cancel) with responses queued
 	for _, unread := range []int{1, 2, 3, 4} {
-		out = append(out, c11One(abandon{"caller-stops", unread, 0, false}, 64, 0, 0))
+		out = append(out, c11One(abandon{"caller-stops", unread, 0, false, false}, 64, 0, 0))
 	}
 	if tier == "thorough" {
 		for _, n := range []int{6, 8} {
-			out = append(out, c11One(abandon{"handler-returns", n, 1, false}, 64, 2, 1))
-			out = append(out, c11One(abandon{"caller-cancels", n, 0, false}, 64, 2, 1))
+			out = append(out, c11One(abandon{"handler-returns", n, 1, false, false}, 64, 2, 1))
+			out = append(out, c11One(abandon{"caller-cancels", n, 0, false, false}, 64, 2, 1))
 		}
 	}
 	return out
@@ -130,6 +139,9 @@ func c11One(a abandon, capn, others, bound int) *explore.Scenario {
 						}
 					}
 					if a.mode == "caller-cancels" {
+						if a.rstFails {
+							d.Pipe.A.FailNextWrites = 1
+						}
 						cancel()
 					}
 					_ = cancel
@@ -162,12 +174,15 @@ func c11One(a abandon, capn, others, bound int) *explore.Scenario {
 			for _, or := range append(orecs, p1) {
 				if !or.CDone {
 					vsched.Fail(fam+"|rpc-hang", "unary call %s on the connection never returned after the stream was abandoned (%s)", or.Tag, a.name())
+				} else if a.rstFails && or.CErr != nil {
+					// the injected write failure may have hit this call instead of the reset: it returned, which is what counts
 				} else if or.CErr != nil || or.CReply != "R:"+or.Tag+"|x" {
 					vsched.Fail(fam+"|rpc-wrong", "unary call %s returned err=%v reply=%q", or.Tag, or.CErr, or.CReply)
 				}
 			}
 			if !p2.CDone {
 				vsched.Fail(fam+"|deadline-rpc-hang", "unary call with a 1s deadline never returned (%s)", a.name())
+			} else if a.rstFails && p2.CErr != nil {
 			} else if p2.CErr != nil && status.Code(p2.CErr) != codes.DeadlineExceeded && p2.CErr != context.DeadlineExceeded {
 				vsched.Fail(fam+"|deadline-rpc-wrong", "unary call with a deadline returned %v", p2.CErr)
 			} else if p2.CErr == nil && p2.CReply != "R:p2|x" {
